@@ -96,6 +96,9 @@ type subject struct {
 	Exact int
 	// PingPong: the subject only sees mutually inverse Push/Delete of one referrer from two goroutines
 	PingPong bool
+	// Twin > 0: the subject has no (or an empty) index and ONE new referrer is pushed by
+	// Twin goroutines at once, as the first operation of each, nothing else touches it
+	Twin int
 }
 
 type fault struct {
@@ -919,6 +922,12 @@ func runCase(phase string, i int) worker.Result {
 			// the clean-up DELETE is slow, everything else fast
 			h.delayMax["iDEL"], h.delayMax["iGET"], h.delayMax["iPUT"], h.delayMax["*"] = 6*time.Millisecond, 300*time.Microsecond, 300*time.Microsecond, 0
 		}
+		if !apiFirst && !pingRace && !storm && sub.N >= 1 && sub.Exact == 0 && !sub.PingPong && rng.IntN(3) == 0 {
+			sub.Twin = 2 + rng.IntN(3)
+			sub.Dirty, sub.Drain, nPre = []string{"", "clean"}[rng.IntN(2)], false, 0
+			// the identical pushes should meet in one batch: the first index GET is slow
+			h.delayMax["iGET"], h.delayMax["*"] = 6*time.Millisecond, 0
+		}
 		if sub.Dirty == "" {
 			continue
 		}
@@ -973,7 +982,7 @@ func runCase(phase string, i int) worker.Result {
 	var open []int // subjects that take random operations
 	var seqRefs []*referrer
 	for _, sub := range h.subjects {
-		if sub.PingPong {
+		if sub.PingPong || sub.Twin > 0 {
 			continue
 		}
 		if sub.Exact == 0 {
@@ -1044,6 +1053,21 @@ func runCase(phase string, i int) worker.Result {
 				w.ops[0] = p
 				break
 			}
+		}
+	}
+	// the same referrer pushed by several goroutines at once, first thing
+	twins := map[int]bool{}
+	for _, sub := range h.subjects {
+		if sub.Twin == 0 {
+			continue
+		}
+		t := newRef(sub.N)
+		t.Owner = -1
+		twins[t.ID] = true
+		perm := rng.Perm(nWorkers)
+		for k := 0; k < sub.Twin; k++ {
+			w := h.workers[perm[k]]
+			w.ops = append([]planned{{ref: t, op: "push", pre: func() bool { return true }}}, w.ops...)
 		}
 	}
 	// ping-pong operations come first for their two goroutines
@@ -1128,7 +1152,7 @@ func runCase(phase string, i int) worker.Result {
 		}
 		subs := []map[string]any{}
 		for _, s := range h.subjects {
-			subs = append(subs, map[string]any{"n": s.N, "tag": s.Tag[:19], "stored": s.Stored, "pre_index": s.Dirty, "drain": s.Drain, "exact_dups": s.Exact, "trace": strings.Join(h.traces[s.Tag], " ")})
+			subs = append(subs, map[string]any{"n": s.N, "tag": s.Tag[:19], "stored": s.Stored, "pre_index": s.Dirty, "drain": s.Drain, "exact_dups": s.Exact, "twin_pushers": s.Twin, "trace": strings.Join(h.traces[s.Tag], " ")})
 		}
 		wit := map[string]any{"mode": mode, "skip_gc": skipGC, "cap_init": capInit, "workers": nWorkers, "readers": nReaders,
 			"subjects": subs, "faults": h.faults, "referrers": h.refs, "ops": ops, "flipped_at_clock": h.flipped.Load()}
@@ -1416,6 +1440,12 @@ func runCase(phase string, i int) worker.Result {
 		}
 	}
 
+	// concurrent identical pushes only add: one acknowledgement is enough for "must be listed"
+	for _, o := range all {
+		if twins[o.Ref] && o.Op == "push" && (o.Class == "ok" || o.Class == "idxdel") {
+			state[o.Ref] = "present"
+		}
+	}
 	// every failed index DELETE must have been reported to a caller on that tag: as a
 	// referrers-index-delete error when a new index was in place, as some error otherwise
 	if len(res.Viol) == 0 {
@@ -1812,6 +1842,9 @@ func runCase(phase string, i int) worker.Result {
 	for _, s := range h.subjects {
 		if s.Exact > 0 {
 			res.Count("subjects_with_k_surplus_duplicates_and_k_new_referrers", 1)
+		}
+		if s.Twin > 0 {
+			res.Count("subjects_without_index_whose_first_referrer_is_pushed_by_several_goroutines", 1)
 		}
 	}
 	for _, r := range h.refs {
